@@ -926,7 +926,8 @@ func TestVerifFmtTrace(t *testing.T) {
 				} else {
 					plen = 1 + (i*5000/N+r.Intn(5000/N+1))%5000
 					if i%10 == 3 {
-						plen = vfPick(r, 1, 2, 998, 999, 1000, 1001, 1002, 1999, 2000, 2001, 4096, 4999, 5000)
+						plen = vfPick(r, 1, 2, 998, 999, 1000, 1001, 1002, 1999, 2000, 2001, 4096, 4999, 5000,
+							255, 256, 257, 32767, 32768, 65534, 65535, 65536, 65537, 70000, 131071, 131072, 131073, 1<<20) // integer-width boundaries of a length
 					}
 				}
 				L := lay.bodyStart(cnt) + lay.BodyFixed + plen
